@@ -96,10 +96,12 @@ def h_energy(env, opts, patt, n, canary=False, hkind=None):
     env.check_eq(R.inner(st, st), 1, "<psi|psi> == 1 (with faithfulness: energy >= lowest eigenvalue by Rayleigh-Ritz)")
 
 
-def h_deflation(env, opts, patt, n):
+def h_deflation(env, opts, patt, n, ref_state=None):
     from tangelo.linq import Circuit, Gate
     opts = dict(opts)
     opts["molecule"] = mol(opts.pop("molecule_key"))
+    if ref_state is not None:
+        opts["ref_state"] = ref_state
     cd = Circuit([Gate("X", 0), Gate("RY", 1, parameter=np.pi / 4), Gate("CNOT", 2, 1), Gate("H", 3)] if n == 4 else
                  [Gate("RY", 0, parameter=np.pi / 4), Gate("CNOT", 1, 0)], n_qubits=n)
     coeff = env.real("w", lo=0, hi=5)
@@ -252,6 +254,8 @@ def shapes(tier, seed):
                                                            patt="ss", n=4, which="N", canary=True), modules=MODS, canary=True, max_paths=64))
     out.append(Shape("deflation/uccsd/H2/jw", h_deflation, dict(opts=dict(molecule_key="H2", qubit_mapping="jw", ansatz=BuiltInAnsatze.UCCSD), patt="ss", n=4),
                      modules=MODS, max_paths=64))
+    out.append(Shape("deflation/uccsd/H2/jw/refstate", h_deflation, dict(opts=dict(molecule_key="H2", qubit_mapping="jw", ansatz=BuiltInAnsatze.UCCSD),
+                                                                       patt="ss", n=4, ref_state=[1, 0, 0, 1]), modules=MODS, max_paths=64))
     out.append(Shape("deflation/uccsd/H2/scbk", h_deflation, dict(opts=dict(molecule_key="H2", qubit_mapping="scbk", ansatz=BuiltInAnsatze.UCCSD), patt="ss", n=2),
                      modules=MODS, max_paths=64))
     out.append(Shape("refstate/uccsd/H2/jw", h_refstate, dict(patt="ss"), modules=MODS, max_paths=64))
